@@ -84,6 +84,11 @@ Definition Y := Eval vm_compute in numbered caseV_missing casesR.
 Print X.
 Print Y.
 """
+    if os.path.exists(prefix + "_G.v"):
+        files["variants_graphmerge"] = HDR + "Open Scope string_scope.\n" + open(prefix + "_G.v").read() + """
+Definition V := Eval vm_compute in numbered caseV_violation casesG.
+Print V.
+"""
     files["variants"] = HDR + "Open Scope string_scope.\n" + open(prefix + "_V.v").read() + """
 Definition X := Eval vm_compute in numbered caseV_extra casesV.
 Definition Y := Eval vm_compute in numbered caseV_missing casesV.
@@ -155,6 +160,19 @@ if have_v:
                 nviol += 1
         elif X != "[]" or Y != "[]":
             mismatch_notes.append({"variants": "model of lint() and CLI disagree", "extra_in_cli": X[:1500], "missing_in_cli": Y[:1500]})
+if have_v and "variants_graphmerge" in res:
+    rc, out = res["variants_graphmerge"]
+    V = ck.printed_value(out, "V")
+    if rc != 0 or V is None:
+        broken.append(("cases-eval variants_graphmerge", out[-2000:]))
+    elif V != "[]":
+        for m in re.finditer(r'\("([^"]*)",\s*(\d+)(?:%N)?,\s*(\d+)(?:%N)?,\s*"([^"]*)"\)', V):
+            f, line, col, msg = m.group(1), m.group(2), m.group(3), m.group(4)
+            key = "graphmerge:%s:%s:%s" % (f, line, msg)
+            ck.violation(key, "SerializedGraph.Merge + Results over the variants of a package disagrees with 'reported iff unused in some variant and used in none': %s:%s:%s %s"
+                         % (f, line, col, msg), {"problem": [f, line, col, msg], "merges": vinfo.get("GraphMerge"), "module": vinfo.get("Module"),
+                                                 "rerun": "VERIF_SEED=%d ./check C17" % ck.seed})
+            nviol += 1
 if have_v:
     rc, out = res["variants_runner"]
     X, Y = ck.printed_value(out, "X"), ck.printed_value(out, "Y")
